@@ -1024,6 +1024,7 @@ int main(int argc, char **argv)
         else if (!strcmp(k, "sopt")) opt.separate_stderr = atoi(v);
         else if (!strcmp(k, "S")) opt.ret_remote_rc = atoi(v);
         else if (!strcmp(k, "k")) opt.kill_on_fail = atoi(v);
+        else if (!strcmp(k, "K")) { if (atoi(v)) err_no_strip_domain(); }   /* -K as opt.c does (C05/C06 relay part) */
         else if (!strcmp(k, "batch")) opt.sigint_terminates = atoi(v);
         else if (!strcmp(k, "ct")) opt.connect_timeout = atoi(v);
         else if (!strcmp(k, "ut")) opt.command_timeout = atoi(v);
